@@ -4,7 +4,7 @@ arch = {"dim": 1|2, "c0": int, "sp": int, "nodes": [node, ...]}
 node = {"op": ..., "ins": [i, ...], "out": int, "k": int, "d": int, "s": int, "bias": bool, "bn": bool,
         "dw": bool, "excl": bool, "causal": bool, "reuse": int}
 Tensor 0 is the network input, tensor i (1-based) the output of nodes[i-1]; the network output is
-the last tensor.  ops: conv | lin | relu | sig | tanh | silu | drop | pool | flat | gsq | add | cat | catt | id  (gsq = AdaptiveAvgPool1d(1) followed by
+the last tensor.  ops: conv | lin | relu | sig | tanh | silu | drop | bns (standalone BatchNorm) | pool | flat | gsq | add | cat | catt | id  (gsq = AdaptiveAvgPool1d(1) followed by
 .squeeze(d), d = node field 'd' in {2, -1}).
 All layers are plain torch.nn leaf modules in a ModuleDict; forward() iterates over the node list in
 Python, so torch.fx traces exactly the intended graph.
@@ -48,7 +48,7 @@ def shapes(arch) -> List[Dict[str, int]]:
             sh.append({"ch": i0["ch"] if n["dw"] else n["out"], "sp": sp, "spw": spw, "flat": False})
         elif op == "lin":
             sh.append({"ch": n["out"], "sp": 1, "spw": 1, "flat": True})
-        elif op in ("relu", "id", "sig", "tanh", "silu", "drop"):
+        elif op in ("relu", "id", "sig", "tanh", "silu", "drop", "bns"):
             sh.append(dict(i0))
         elif op == "pool":
             sh.append({"ch": i0["ch"], "sp": i0["sp"] // 2, "spw": i0["spw"] // 2 if arch["dim"] == 2 else 1, "flat": False})
@@ -132,6 +132,10 @@ class GrammarNet(nn.Module):
                 names.append(lname(idx))
             elif op == "id":
                 self.layers[lname(idx)] = nn.Identity()
+                names.append(lname(idx))
+            elif op == "bns":       # standalone BatchNorm (not directly fused by construction: see FeatGraph)
+                i0 = sh[n["ins"][0]]
+                self.layers[lname(idx)] = (nn.BatchNorm2d if (dim == 2 and not i0["flat"]) else nn.BatchNorm1d)(i0["ch"])
                 names.append(lname(idx))
             elif op == "silu":
                 self.layers[lname(idx)] = nn.SiLU()
